@@ -583,6 +583,11 @@ func extractItems(p *pub, doc map[string]any) []item {
 					if s, ok := val.(string); ok {
 						out = append(out, item{req: hx("country") + " " + hx(s), what: "country " + s, path: pp, kind: "country"})
 					}
+				case k == "$regime" && path != "":
+					// the `$regime` a party declares for itself
+					if s, ok := val.(string); ok {
+						out = append(out, item{req: hx("regime") + " " + hx(s), what: "$regime " + s + " (of a party)", path: pp, kind: "regime", known: knownRegime})
+					}
 				case k == "ext":
 					if m, ok := val.(map[string]any); ok {
 						for ek, ev := range m {
@@ -717,6 +722,12 @@ func Run(c *core.Ctx) int {
 
 	var cases []Case
 	var one Case
+	var hone HCase
+	if c.ReplayFile != "" && c.ReplayCase(&hone) && hone.Family != "" {
+		// a case of the in-place / party-regime families (history.go)
+		runFamilies(c, p, exs, byName, &hone)
+		return c.Finish(rule, nil)
+	}
 	if c.ReplayCase(&one) {
 		cases = []Case{one}
 	} else {
@@ -851,6 +862,10 @@ func Run(c *core.Ctx) int {
 		if len(c.Samples) < 6 && r.cs.Position.Kind != "none" && !r.cs.Defined {
 			c.Sample(map[string]any{"case": r.cs, "references": len(r.items)})
 		}
+	}
+	if c.ReplayFile == "" {
+		// validation as a function of the content (in-place edits), party-level regimes (history.go)
+		runFamilies(c, p, exs, byName, nil)
 	}
 	return c.Finish(rule, map[string]any{"exhaustive": c.Thorough()})
 }
